@@ -136,6 +136,16 @@ fn run_suite<S: ShortGroupSignatureScheme + 'static>(em: &mut Emitter, base: &mu
                 p.proofs.insert(sid.clone(), pr.clone());
                 fix_challenge(&mut p, &world.schema, &world.nonce, 3);
                 attack(em, suite, &format!("variant-under-signature-id {}", variant), &world, &p);
+                // the same proof re-labelled with the signature statement's id (passes the "stored under its own id" test)
+                let mut pv = serde_json::to_value(pr).unwrap_or(Value::Null);
+                if let Some(m) = pv.as_object_mut() {
+                    for (_, inner) in m.iter_mut() {
+                        inner["id"] = json!(sid.clone());
+                    }
+                }
+                let mut v = serde_json::to_value(&base).unwrap_or(Value::Null);
+                v["proofs"][&sid] = pv;
+                attack_json(em, suite, &format!("variant-relabelled-under-signature-id {}", variant), &world, &v, true);
             }
         }
         // A6: the legitimate holder's observed signature proof with the adversary's reported claims
